@@ -281,3 +281,33 @@ claim(
     "listener/child interplay, backlog, connect cancellation, 4-tuple reuse",
     COMMON_ASSUME,
 )
+
+claim(
+    "C18",
+    "Bounded model checking (Kani/CBMC) of the per-ring completion ACCOUNTING of the simulated io_uring (RingState): from a ring with "
+    "two in-flight operations and one matured completion, (1) schedule / post_immediate_error add exactly one completion that is "
+    "visible at its own instant and not one nanosecond earlier (symbolic instants); (2) cancel of an in-flight, of an already matured "
+    "and of an unknown operation: the target is removed without being executed and replaced by exactly one -ECANCELED completion plus "
+    "one 0 completion for the cancel (or one -ENOENT), every other submission keeps exactly one pending completion; (3) pop_ready "
+    "yields exactly the visible completions, each once, never one whose latency has not elapsed, for every outcome of the shuffle "
+    "(symbolic rng), and ready_cq_count equals the number that can be drained.",
+    "NARROW CLAIM: only the ring accounting. Submit-side draining (submit.rs), the CompletionQueue iterator, AsyncFd readiness and above "
+    "all the parity of read/write/fsync effects with the synchronous file API and the crash clause need the simulated filesystem, whose "
+    "simplest history (create, write, read) did not finish symbolic execution in 10 minutes (std::path component parsing over "
+    "PathBufs stored inside the pending-operation enum); they are NOT covered. Notify::notify_waiters is stubbed to a no-op.",
+    ["sim::RingState::{new, schedule, post_immediate_error, cancel, ready_cq_count, promote_ready, pop_ready}"],
+    "Bounds: 3 entries in the ring; cancel target and (for pop_ready) completion instants concrete per instance, other instants and "
+    "the rng symbolic; unwind 8.",
+    "submit / SQ draining, CQ iteration, fs effects (exec_read/exec_write/exec_fsync), crash, multi-ring interleavings",
+    COMMON_ASSUME[:1] + ["the crate is built against the REAL tokio; tokio::sync::Notify::notify_waiters is stubbed (wake-up plumbing)"] + COMMON_ASSUME[2:],
+)
+
+NOT_APPLICABLE["C07"] = (
+    "crash durability is decided by turmoil-fs's pending-operation log (a Vec of an enum holding PathBufs and byte vectors) and "
+    "std::path comparisons; measured: the simplest history through the real Fs (create_file, write_file, file_exists, file_len, "
+    "read_file on '/f') did not finish symbolic execution in 10 minutes at unwind 5 (pointers stored inside a data-carrying enum lose "
+    "their provenance in CBMC, so every Path comparison re-parses symbolic bytes); std cannot be replaced by a model and Kani cannot "
+    "name the PartialEq impl of Path/Components in a stub; nothing is claimed rather than a check that cannot finish")
+NOT_APPLICABLE["C10"] = (
+    "same encoding obstacle as C07 (pending-operation log + std::path over PathBuf-keyed tables; simplest create/write/read history: no "
+    "verdict in 10 minutes); the truncate-then-extend read_file suspicion recorded in DESIGN.md §4 is therefore not decided by a check")
